@@ -86,6 +86,12 @@ MUTANTS = [
     ('C05-m26', 'C05', 'C05-n', SRC + 'impls/types/string_transformer/impl/strip_space.py',
      "    for non_empty_line in lines:\n        if not non_empty_line.isspace():\n            break\n    else:\n        return\n",
      "    for non_empty_line in lines:\n        break\n    else:\n        return\n"),
+    ('C14-m01', 'C14', 'C14-h', SRC + 'util/file_utils/spooled_file.py',
+     "                    self._rollover()\n                    self._file.writelines(lines)\n",
+     "                    self._rollover()\n"),
+    ('C14-m02', 'C14', 'C14-h', SRC + 'util/file_utils/spooled_file.py',
+     "            rv = file.write(s)\n            self._check(file)\n            return rv",
+     "            self._check(file)\n            rv = file.write(s)\n            return rv"),
 ]
 
 
